@@ -126,6 +126,8 @@ type Config struct {
 	AbortAfterLocal bool
 	LocalAccepted   bool
 	watching        bool
+	watchFn         string
+	inHint          bool
 	watchDepth      int
 }
 
@@ -321,6 +323,7 @@ func fresh(r frontend.Variable, ops ...frontend.Variable) frontend.Variable {
 }
 
 func (b *base) Add(i1, i2 frontend.Variable, in ...frontend.Variable) frontend.Variable {
+	b.cfg.checkReturned()
 	r := b.API.Add(i1, i2, in...)
 	if b.cfg.TrackBounds {
 		s := new(big.Int).Add(b.bound(i1), b.bound(i2))
@@ -336,6 +339,7 @@ func (b *base) Add(i1, i2 frontend.Variable, in ...frontend.Variable) frontend.V
 }
 
 func (b *base) Mul(i1, i2 frontend.Variable, in ...frontend.Variable) frontend.Variable {
+	b.cfg.checkReturned()
 	r := b.API.Mul(i1, i2, in...)
 	if b.cfg.TrackBounds {
 		r = fresh(r, i1, i2)
@@ -353,6 +357,7 @@ func (b *base) Mul(i1, i2 frontend.Variable, in ...frontend.Variable) frontend.V
 }
 
 func (b *base) MulAcc(a, x, y frontend.Variable) frontend.Variable {
+	b.cfg.checkReturned()
 	var ba *big.Int
 	if b.cfg.TrackBounds {
 		ba = b.bound(a) // before the call: the engine may reuse a's storage
@@ -371,6 +376,7 @@ func (b *base) MulAcc(a, x, y frontend.Variable) frontend.Variable {
 }
 
 func (b *base) Sub(i1, i2 frontend.Variable, in ...frontend.Variable) frontend.Variable {
+	b.cfg.checkReturned()
 	r := b.API.Sub(i1, i2, in...)
 	if b.cfg.TrackBounds {
 		// exact only for const - small; otherwise unknown
@@ -395,6 +401,7 @@ func (b *base) Neg(i1 frontend.Variable) frontend.Variable {
 }
 
 func (b *base) Select(s, i1, i2 frontend.Variable) frontend.Variable {
+	b.cfg.checkReturned()
 	r := b.API.Select(s, i1, i2)
 	if b.cfg.TrackBounds {
 		m := b.bound(i1)
@@ -412,6 +419,7 @@ func (b *base) Select(s, i1, i2 frontend.Variable) frontend.Variable {
 }
 
 func (b *base) Lookup2(b0, b1, i0, i1, i2, i3 frontend.Variable) frontend.Variable {
+	b.cfg.checkReturned()
 	r := b.API.Lookup2(b0, b1, i0, i1, i2, i3)
 	if b.cfg.TrackBounds {
 		m := b.bound(i0)
@@ -429,6 +437,7 @@ func (b *base) Lookup2(b0, b1, i0, i1, i2, i3 frontend.Variable) frontend.Variab
 }
 
 func (b *base) IsZero(i1 frontend.Variable) frontend.Variable {
+	b.cfg.checkReturned()
 	r := b.API.IsZero(i1)
 	if b.cfg.TrackBounds {
 		if p, ok := r.(*big.Int); ok {
@@ -440,6 +449,7 @@ func (b *base) IsZero(i1 frontend.Variable) frontend.Variable {
 }
 
 func (b *base) ToBinary(i1 frontend.Variable, n ...int) []frontend.Variable {
+	b.cfg.checkReturned()
 	r := b.API.ToBinary(i1, n...) // panics (reject) if the value does not fit
 	nb := 254
 	if len(n) > 0 {
@@ -481,6 +491,7 @@ func (b *base) ToBinary(i1 frontend.Variable, n ...int) []frontend.Variable {
 }
 
 func (b *base) FromBinary(v ...frontend.Variable) frontend.Variable {
+	b.cfg.checkReturned()
 	r := b.API.FromBinary(v...)
 	if b.cfg.TrackBounds {
 		m := new(big.Int).Lsh(big.NewInt(1), uint(len(v)))
@@ -499,6 +510,7 @@ func (b *base) FromBinary(v ...frontend.Variable) frontend.Variable {
 }
 
 func (b *base) AssertIsEqual(i1, i2 frontend.Variable) {
+	b.cfg.checkReturned()
 	b.cfg.count("asserteq")
 	b.API.AssertIsEqual(i1, i2)
 	if b.cfg.TrackBounds {
@@ -622,6 +634,33 @@ func callSite() (string, int) {
 	return strings.Join(parts, "<-"), depth
 }
 
+// checkReturned decides the local verdict of a substitution: the gadget whose hint output was substituted is the innermost repository
+// function around that hint call; its constraints have all been evaluated once that invocation has returned, i.e. when the current
+// call (a later hint call or any proxied API call) is no longer inside it: not deeper than it, or deeper but with another function at
+// its stack position.
+func (cfg *Config) checkReturned() {
+	if !cfg.watching {
+		return
+	}
+	site, d := callSite()
+	returned := d <= cfg.watchDepth
+	if !returned {
+		parts := strings.Split(site, "<-")
+		if i := d - cfg.watchDepth; i < len(parts) && parts[i] != cfg.watchFn {
+			returned = true
+		}
+	} else if d == cfg.watchDepth && strings.Split(site, "<-")[0] == cfg.watchFn && !cfg.inHint {
+		returned = false // still in the gadget itself (an API call of the gadget's own body)
+	}
+	if returned {
+		cfg.watching = false
+		cfg.LocalAccepted = true
+		if cfg.AbortAfterLocal {
+			panic(LocalPass)
+		}
+	}
+}
+
 // LocalPass is the panic value used to stop a run as soon as the substituted gadget has returned.
 const LocalPass = "verif: the gadget's local constraints passed"
 
@@ -632,16 +671,9 @@ func (c *comp) NewHint(f solver.Hint, nbOutputs int, inputs ...frontend.Variable
 	cfg.nHints++
 	call := &HintCall{Name: name, Global: cfg.nHints}
 	cfg.count("hint:" + name)
-	if cfg.watching {
-		_, d := callSite()
-		if d <= cfg.watchDepth {
-			cfg.watching = false
-			cfg.LocalAccepted = true
-			if cfg.AbortAfterLocal {
-				panic(LocalPass)
-			}
-		}
-	}
+	cfg.inHint = true
+	cfg.checkReturned()
+	cfg.inHint = false
 	if needSite {
 		call.Site, call.Depth = callSite()
 		if cfg.siteOcc == nil {
@@ -683,6 +715,7 @@ func (c *comp) NewHint(f solver.Hint, nbOutputs int, inputs ...frontend.Variable
 			cfg.count("subst")
 			if !cfg.watching && !cfg.LocalAccepted {
 				cfg.watching, cfg.watchDepth = true, call.Depth
+				cfg.watchFn = strings.Split(call.Site, "<-")[0]
 			}
 			out = make([]frontend.Variable, len(sub))
 			for i, s := range sub {
